@@ -7,6 +7,7 @@ import ast
 import time
 import z3
 from pyvc.sorts import *  # noqa
+from pyvc.sorts import _forall as SAFE_FORALL
 from pyvc.state import *  # noqa
 from pyvc.state import cls_fn
 from pyvc import contract as C
@@ -545,7 +546,7 @@ class Exec(ExprMixin, CallMixin):
       before, after = st_before.heap.get(a), st_after.heap.get(a)
       if before.eq(after):
         continue
-      goal = z3.ForAll([r], z3.Implies(
+      goal = SAFE_FORALL([r], z3.Implies(
           z3.And(r < st_before.heap.alloc, *[r != m for m in mod]),
           after[r] == before[r]))
       self.oblige(f'{oid}/frame:{a}', 'loop-frame', st_after, goal,
@@ -555,6 +556,11 @@ class Exec(ExprMixin, CallMixin):
     if s.orelse:
       self.unsupp('for-else', s)
     def k(st2, it):
+      if isinstance(it, SpecIter):
+        # draining an abstract generator: its whole effect is the contract of the call
+        if not all(isinstance(b, ast.Pass) for b in s.body):
+          self.unsupp('loop over an abstract generator with a non-trivial body', s)
+        return [Outcome('normal', st2)]
       view = self.as_seqview(it, st2, s)
       return self.run_loop(s, st2, view)
     return self._from_res(self.ev(s.iter, st), k)
@@ -757,9 +763,9 @@ class Exec(ExprMixin, CallMixin):
     rr, ii = z3.Ints('cl_r cl_i')
     kk = z3.Const('cl_k', Val)
     dv, le = heap.get('dval'), heap.get('lelt')
-    facts.append(z3.ForAll([rr, kk], z3.Implies(is_VRef(dv[rr][kk]), ref(dv[rr][kk]) < heap.alloc),
+    facts.append(SAFE_FORALL([rr, kk], z3.Implies(is_VRef(dv[rr][kk]), ref(dv[rr][kk]) < heap.alloc),
                            patterns=[dv[rr][kk]]))
-    facts.append(z3.ForAll([rr, ii], z3.Implies(is_VRef(le[rr][ii]), ref(le[rr][ii]) < heap.alloc),
+    facts.append(SAFE_FORALL([rr, ii], z3.Implies(is_VRef(le[rr][ii]), ref(le[rr][ii]) < heap.alloc),
                            patterns=[le[rr][ii]]))
     from pyvc.calls import param_row_axiom
     facts.append(param_row_axiom())
@@ -780,7 +786,7 @@ class Exec(ExprMixin, CallMixin):
       before, after = self.entry_heap.get(a), st.heap.get(a)
       if before.eq(after):
         continue
-      goals.append((f'frame:{a}', z3.ForAll([r], z3.Implies(
+      goals.append((f'frame:{a}', SAFE_FORALL([r], z3.Implies(
           z3.And(r < self.entry_heap.alloc, *[r != m for m in mod]),
           after[r] == before[r]))))
     for n in st.heap.names():
@@ -789,10 +795,10 @@ class Exec(ExprMixin, CallMixin):
         if before.eq(after):
           continue
         if n[2:] not in self.ctr.writes:
-          goals.append((f'frame:{n}', z3.ForAll([r], z3.Implies(
+          goals.append((f'frame:{n}', SAFE_FORALL([r], z3.Implies(
               r < self.entry_heap.alloc, after[r] == before[r]))))
         else:
-          goals.append((f'frame:{n}', z3.ForAll([r], z3.Implies(
+          goals.append((f'frame:{n}', SAFE_FORALL([r], z3.Implies(
               z3.And(r < self.entry_heap.alloc, *[r != m for m in mod]),
               after[r] == before[r]))))
     return goals
